@@ -68,6 +68,8 @@ func main() {
 		code := engine.RunCheck(p, cfg, seed)
 		os.RemoveAll(work)
 		os.Exit(code)
+	case "dumpall":
+		engine.DumpAll(p, *fn)
 	case "dump":
 		engine.Dump(p, *fn, *obl, *prop, work)
 	default:
